@@ -40,9 +40,10 @@ func NewISO9797M2Padding(blockSize uint) Padding {
 }
 
 // NewISO9797M3Padding creates a new ISO/IEC 9797-1 Padding Method 3 (also known as ISO 10126) padding scheme
-// with the specified block size. The block size must be between 1 and 255 inclusive.
+// with the specified block size. The block size must be between 8 and 255 inclusive
+// (the first block carries the 64-bit bit length of the data).
 func NewISO9797M3Padding(blockSize uint) Padding {
-	if blockSize == 0 || blockSize > 255 {
+	if blockSize < 8 || blockSize > 255 {
 		panic("padding: invalid block size")
 	}
 	return iso9797M3Padding(blockSize)
